@@ -480,6 +480,11 @@ class BuiltinMixin(CallMixin):
                     return z3.BoolVal(True)
                 fr = st.heap[fr.oid].get("$parent")
             return z3.BoolVal(False)
+        if name == "defaulted":
+            # defaulted("p"): the call left parameter p to its default value (e.g. a sentinel `undefined`)
+            fr = ctx.old[1] if ctx.old is not None else ctx.frame
+            stt = ctx.old[0] if ctx.old is not None else st
+            return z3.BoolVal(e.args[0].value in stt.heap[fr.oid].get("$defaulted", ()))
         if name == "implies":
             a = z3.simplify(ops.truth(st, self.eval1(e.args[0], st, ctx)))
             if z3.is_false(a):
